@@ -163,6 +163,50 @@ def run(P, rep, tier):
     r136_lines(P, rep)
     r138(W, engs, rep)
     r139_pre(W, rep)
+    r1310_phases(P, rep)
+
+
+def r1310_phases(P, rep):
+    """translation phases 1 and 2 (C11 5.1.1.2) in tokenize_file: the pass that turns CR LF into LF runs before the pass that deletes
+    backslash-newline, or a continuation line of a CRLF file keeps its backslash and a valid program is rejected. The passes are recognised by
+    what they compare against, not by name: a function applied to the file buffer whose body tests for '\\r' is the newline pass, one that tests for
+    a backslash followed by '\\n' without knowing '\\r' is the splice pass"""
+    rep.rule('R13.10', 'tokenize_file normalises line ends (CR LF -> LF) before it splices continuation lines, and both before tokenizing', floor=1)
+    u = P.unit('tokenize.c')
+    fn = u.fn('tokenize_file')
+    if fn is None:
+        rep.undecided('R13.10', 'tokenize.c:tokenize_file', 'tokenize_file vanished'); return
+    where = 'tokenize.c:%d' % fn.line
+
+    def lits(f, seen=None):
+        out = set()
+        for n in f.walk():
+            if n.kind == 'CharacterLiteral' and isinstance(n.value, int):
+                out.add(n.value)
+        return out
+    seq = []
+    for c in fn.calls():
+        name = c.callee()
+        if name in u.functions and name != 'tokenize_file' and c.args():
+            L_ = lits(u.functions[name])
+            role = None
+            if 13 in L_:
+                role = 'newline'
+            elif 92 in L_ and 10 in L_ and len(u.params(name)) == 1:
+                role = 'splice'
+            if name == 'tokenize':
+                role = 'tokenize'
+            if role:
+                seq.append((c.line, role, name))      # fn.calls() walks the body in evaluation order of its straight-line statements
+    roles = [r for _, r, _ in seq]
+    if 'splice' not in roles or 'tokenize' not in roles:
+        rep.undecided('R13.10', 'tokenize.c:tokenize_file:phase-order', 'the splice pass / the tokenize call could not be recognised among %r' % (seq,), where=where); return
+    if 'newline' not in roles:
+        # no separate CR pass: the splice pass would have to know CR itself, which the role test above excludes
+        rep.ob('R13.10', 'tokenize.c:tokenize_file:phase-order', False, 'no pass that handles carriage returns is applied to the file buffer before continuation lines are spliced (%r)' % (seq,), where=where); return
+    ok = roles.index('newline') < roles.index('splice') < roles.index('tokenize')
+    rep.ob('R13.10', 'tokenize.c:tokenize_file:phase-order', ok,
+           'tokenize_file applies %s: continuation lines are spliced before CR LF is turned into LF, so backslash CR LF is not a line continuation and a valid CRLF source is rejected with a stray backslash' % ' -> '.join(n for _, _, n in seq), where=where)
 
 
 # --------------------------------------------------------------------------------------------
